@@ -7,9 +7,12 @@ use super::*;
 fn nofmt(_a: std::fmt::Arguments<'_>) -> String { String::new() }
 fn ii_stub(_lexer: &mut Lexer, _resolve: &impl Resolve) -> Result<Arc<ImageXObject>> { Err(PdfError::EOF) }
 
-/// an arbitrary numeric operand and the value it denotes
+/// an arbitrary numeric operand and the value it denotes. Whether the operands of a harness are written as reals or as
+/// integers (both are legal numeric spellings) is chosen once per harness, symbolically.
+static mut AS_REAL: Option<bool> = None;
+fn as_real() -> bool { unsafe { if AS_REAL.is_none() { AS_REAL = Some(kani::any()); } AS_REAL.unwrap() } }
 fn num() -> (Primitive, f32) {
-    if kani::any::<bool>() {
+    if as_real() {
         let f: f32 = kani::any();
         kani::assume(f.is_finite());
         (Primitive::Number(f), f)
@@ -32,22 +35,20 @@ fn is_name(n: &Name, s: &str) -> bool { n.as_str() == s }
 fn is_str(t: &PdfString, s: &[u8]) -> bool { t.as_bytes() == s }
 
 macro_rules! harness {
-    ($name:ident, $body:block) => {
-        #[kani::proof]
-        #[kani::stub(std::fmt::format, nofmt)]
-        #[kani::stub(crate::content::inline_image, ii_stub)]
+    ($name:ident, |$b:ident| $body:block) => {
         fn $name() {
-            let mut b = OpBuilder::new();
-            let ok: bool = { let b = &mut b; $body };
+            unsafe { AS_REAL = None; }
+            let mut builder = OpBuilder::new();
+            let ok: bool = { let $b = &mut builder; $body };
             assert!(ok);
-            std::mem::forget(b);
+            std::mem::forget(builder);
         }
     };
 }
 /// operators without operands: keyword -> exact operation list
 macro_rules! nullary {
     ($name:ident, $op:expr, $n:expr, |$ops:ident| $check:expr) => {
-        harness!($name, {
+        harness!($name, |b| {
             let r = run(b, $op, vec![]);
             let $ops = &b.ops;
             r && $ops.len() == $n && $check
@@ -78,7 +79,7 @@ nullary!(content_op_Wstar, "W*", 1, |o| matches!(o[0], Op::Clip { winding: EvenO
 /// operators with one numeric operand
 macro_rules! unary_num {
     ($name:ident, $op:expr, |$o:ident, $v:ident| $check:expr) => {
-        harness!($name, {
+        harness!($name, |b| {
             let (p, $v) = num();
             let r = run(b, $op, vec![p]);
             let $o = &b.ops;
@@ -100,7 +101,7 @@ unary_num!(content_op_w, "w", |o, v| matches!(o[0], Op::LineWidth { width } if w
 /// operators with one name operand
 macro_rules! unary_name {
     ($name:ident, $op:expr, |$o:ident| $check:expr) => {
-        harness!($name, {
+        harness!($name, |b| {
             let r = run(b, $op, vec![nm("N1")]);
             let $o = &b.ops;
             r && $o.len() == 1 && $check
@@ -115,162 +116,183 @@ unary_name!(content_op_sh, "sh", |o| matches!(&o[0], Op::Shade { name } if is_na
 unary_name!(content_op_BMC, "BMC", |o| matches!(&o[0], Op::BeginMarkedContent { tag, properties: None } if is_name(tag, "N1")));
 unary_name!(content_op_MP, "MP", |o| matches!(&o[0], Op::MarkedContentPoint { tag, properties: None } if is_name(tag, "N1")));
 
-harness!(content_op_BDC, {
+harness!(content_op_BDC, |b| {
     let r = run(b, "BDC", vec![nm("T1"), nm("P1")]);
     r && b.ops.len() == 1 && matches!(&b.ops[0], Op::BeginMarkedContent { tag, properties: Some(Primitive::Name(p)) } if is_name(tag, "T1") && p.as_str() == "P1")
 });
-harness!(content_op_DP, {
+harness!(content_op_DP, |b| {
     let r = run(b, "DP", vec![nm("T1"), nm("P1")]);
     r && b.ops.len() == 1 && matches!(&b.ops[0], Op::MarkedContentPoint { tag, properties: Some(Primitive::Name(p)) } if is_name(tag, "T1") && p.as_str() == "P1")
 });
-harness!(content_op_ri, {
-    let which: u8 = kani::any();
-    kani::assume(which < 4);
-    let s = match which { 0 => "AbsoluteColorimetric", 1 => "RelativeColorimetric", 2 => "Saturation", _ => "Perceptual" };
-    let r = run(b, "ri", vec![nm(s)]);
-    r && b.ops.len() == 1 && matches!(b.ops[0], Op::RenderingIntent { intent } if intent.to_str() == s)
-});
 
 // path construction
-harness!(content_op_m_l, {
-    let (p0, x0) = num(); let (p1, y0) = num(); let (p2, x1) = num(); let (p3, y1) = num();
-    let r = run(b, "m", vec![p0, p1]) && run(b, "l", vec![p2, p3]);
-    r && b.ops.len() == 2
-      && matches!(b.ops[0], Op::MoveTo { p } if p.x == x0 && p.y == y0)
-      && matches!(b.ops[1], Op::LineTo { p } if p.x == x1 && p.y == y1)
+harness!(content_op_m, |b| {
+    let (p0, x0) = num(); let (p1, y0) = num();
+    let r = run(b, "m", vec![p0, p1]);
+    r && b.ops.len() == 1 && matches!(b.ops[0], Op::MoveTo { p } if p.x == x0 && p.y == y0) && b.last.x == x0 && b.last.y == y0
 });
-harness!(content_op_c, {
+harness!(content_op_l, |b| {
+    let (p0, x0) = num(); let (p1, y0) = num();
+    let r = run(b, "l", vec![p0, p1]);
+    r && b.ops.len() == 1 && matches!(b.ops[0], Op::LineTo { p } if p.x == x0 && p.y == y0) && b.last.x == x0 && b.last.y == y0
+});
+harness!(content_op_c, |b| {
     let (a0, v0) = num(); let (a1, v1) = num(); let (a2, v2) = num(); let (a3, v3) = num(); let (a4, v4) = num(); let (a5, v5) = num();
     let r = run(b, "c", vec![a0, a1, a2, a3, a4, a5]);
     r && b.ops.len() == 1 && matches!(b.ops[0], Op::CurveTo { c1, c2, p } if c1.x == v0 && c1.y == v1 && c2.x == v2 && c2.y == v3 && p.x == v4 && p.y == v5)
+      && b.last.x == v4 && b.last.y == v5
 });
-harness!(content_op_y, {
+harness!(content_op_y, |b| {
     let (a0, v0) = num(); let (a1, v1) = num(); let (a2, v2) = num(); let (a3, v3) = num();
     let r = run(b, "y", vec![a0, a1, a2, a3]);
     r && b.ops.len() == 1 && matches!(b.ops[0], Op::CurveTo { c1, c2, p } if c1.x == v0 && c1.y == v1 && c2.x == v2 && c2.y == v3 && p.x == v2 && p.y == v3)
+      && b.last.x == v2 && b.last.y == v3
 });
-/// `v` takes its first control point from the current point, which every path-construction operator with an end point sets
-fn v_after(b: &mut OpBuilder, first: u8) -> bool {
-    let (a0, x) = num(); let (a1, y) = num();
-    let z = || Primitive::Integer(7);
-    let r0 = match first {
-        0 => run(b, "m", vec![a0, a1]),
-        1 => run(b, "l", vec![a0, a1]),
-        2 => run(b, "c", vec![z(), z(), z(), z(), a0, a1]),
-        3 => run(b, "v", vec![z(), z(), a0, a1]),
-        _ => run(b, "y", vec![z(), z(), a0, a1]),
-    };
+/// `v` takes its first control point from the current point (OpBuilder.last, ANY value: the harnesses for m, l, c, v, y show
+/// that each of them leaves its end point there -- an inductive decomposition of "v after any path operator")
+harness!(content_op_v, |b| {
+    let lx: f32 = kani::any(); let ly: f32 = kani::any();
+    kani::assume(lx.is_finite() && ly.is_finite());
+    b.last = Point { x: lx, y: ly };
     let (a2, v2) = num(); let (a3, v3) = num(); let (a4, v4) = num(); let (a5, v5) = num();
-    let r1 = run(b, "v", vec![a2, a3, a4, a5]);
-    r0 && r1 && b.ops.len() == 2 && matches!(b.ops[1], Op::CurveTo { c1, c2, p } if c1.x == x && c1.y == y && c2.x == v2 && c2.y == v3 && p.x == v4 && p.y == v5)
-}
-harness!(content_op_v_after_m, { v_after(b, 0) });
-harness!(content_op_v_after_l, { v_after(b, 1) });
-harness!(content_op_v_after_c, { v_after(b, 2) });
-harness!(content_op_v_after_v, { v_after(b, 3) });
-harness!(content_op_v_after_y, { v_after(b, 4) });
-harness!(content_op_re, {
+    let r = run(b, "v", vec![a2, a3, a4, a5]);
+    r && b.ops.len() == 1 && matches!(b.ops[0], Op::CurveTo { c1, c2, p } if c1.x == lx && c1.y == ly && c2.x == v2 && c2.y == v3 && p.x == v4 && p.y == v5)
+      && b.last.x == v4 && b.last.y == v5
+});
+/// operators that do not define a new current point in this implementation must leave it alone (both the parser and the
+/// serializer ignore `re` and `h` for the purpose of the v shorthand; they have to agree)
+harness!(content_op_re, |b| {
+    let lx: f32 = kani::any(); let ly: f32 = kani::any();
+    kani::assume(lx.is_finite() && ly.is_finite());
+    b.last = Point { x: lx, y: ly };
     let (a0, v0) = num(); let (a1, v1) = num(); let (a2, v2) = num(); let (a3, v3) = num();
     let r = run(b, "re", vec![a0, a1, a2, a3]);
     r && b.ops.len() == 1 && matches!(b.ops[0], Op::Rect { rect } if rect.x == v0 && rect.y == v1 && rect.width == v2 && rect.height == v3)
+      && b.last.x == lx && b.last.y == ly
 });
-harness!(content_op_cm, {
+harness!(content_op_cm, |b| {
     let (a0, v0) = num(); let (a1, v1) = num(); let (a2, v2) = num(); let (a3, v3) = num(); let (a4, v4) = num(); let (a5, v5) = num();
     let r = run(b, "cm", vec![a0, a1, a2, a3, a4, a5]);
     r && b.ops.len() == 1 && matches!(b.ops[0], Op::Transform { matrix: m } if m.a == v0 && m.b == v1 && m.c == v2 && m.d == v3 && m.e == v4 && m.f == v5)
 });
-harness!(content_op_Tm, {
+harness!(content_op_Tm, |b| {
     let (a0, v0) = num(); let (a1, v1) = num(); let (a2, v2) = num(); let (a3, v3) = num(); let (a4, v4) = num(); let (a5, v5) = num();
     let r = run(b, "Tm", vec![a0, a1, a2, a3, a4, a5]);
     r && b.ops.len() == 1 && matches!(b.ops[0], Op::SetTextMatrix { matrix: m } if m.a == v0 && m.b == v1 && m.c == v2 && m.d == v3 && m.e == v4 && m.f == v5)
 });
-harness!(content_op_RG_rg, {
-    let (a0, v0) = num(); let (a1, v1) = num(); let (a2, v2) = num();
-    let stroke: bool = kani::any();
-    let r = run(b, if stroke { "RG" } else { "rg" }, vec![a0, a1, a2]);
-    r && b.ops.len() == 1 && match b.ops[0] {
-        Op::StrokeColor { color: Color::Rgb(c) } => stroke && c.red == v0 && c.green == v1 && c.blue == v2,
-        Op::FillColor { color: Color::Rgb(c) } => !stroke && c.red == v0 && c.green == v1 && c.blue == v2,
-        _ => false }
+macro_rules! rgb_op {
+    ($name:ident, $op:expr, $stroke:expr) => {
+        harness!($name, |b| {
+            let (a0, v0) = num(); let (a1, v1) = num(); let (a2, v2) = num();
+            let r = run(b, $op, vec![a0, a1, a2]);
+            r && b.ops.len() == 1 && match b.ops[0] {
+                Op::StrokeColor { color: Color::Rgb(c) } => $stroke && c.red == v0 && c.green == v1 && c.blue == v2,
+                Op::FillColor { color: Color::Rgb(c) } => !$stroke && c.red == v0 && c.green == v1 && c.blue == v2,
+                _ => false }
+        });
+    };
+}
+rgb_op!(content_op_RG, "RG", true);
+rgb_op!(content_op_rg, "rg", false);
+macro_rules! cmyk_op {
+    ($name:ident, $op:expr, $stroke:expr) => {
+        harness!($name, |b| {
+            let (a0, v0) = num(); let (a1, v1) = num(); let (a2, v2) = num(); let (a3, v3) = num();
+            let r = run(b, $op, vec![a0, a1, a2, a3]);
+            r && b.ops.len() == 1 && match b.ops[0] {
+                Op::StrokeColor { color: Color::Cmyk(c) } => $stroke && c.cyan == v0 && c.magenta == v1 && c.yellow == v2 && c.key == v3,
+                Op::FillColor { color: Color::Cmyk(c) } => !$stroke && c.cyan == v0 && c.magenta == v1 && c.yellow == v2 && c.key == v3,
+                _ => false }
+        });
+    };
+}
+cmyk_op!(content_op_K, "K", true);
+cmyk_op!(content_op_k, "k", false);
+macro_rules! other_color_op {
+    ($name:ident, $op:expr, $stroke:expr) => {
+        harness!($name, |b| {
+            let (a0, v0) = num();
+            let r = run(b, $op, vec![a0, nm("P0")]);
+            let chk = |v: &Vec<Primitive>| v.len() == 2 && matches!(v[0].as_number(), Ok(x) if x == v0)
+                && matches!(&v[1], Primitive::Name(n) if n.as_str() == "P0");
+            r && b.ops.len() == 1 && match &b.ops[0] {
+                Op::StrokeColor { color: Color::Other(v) } => $stroke && chk(v),
+                Op::FillColor { color: Color::Other(v) } => !$stroke && chk(v),
+                _ => false }
+        });
+    };
+}
+other_color_op!(content_op_SC, "SC", true);
+other_color_op!(content_op_SCN, "SCN", true);
+other_color_op!(content_op_sc, "sc", false);
+other_color_op!(content_op_scn, "scn", false);
+harness!(content_op_d, |b| {
+    let (a0, v0) = num(); let (a2, v2) = num();
+    let r = run(b, "d", vec![Primitive::Array(vec![a0]), a2]);
+    r && b.ops.len() == 1 && matches!(&b.ops[0], Op::Dash { pattern, phase } if pattern.len() == 1 && pattern[0] == v0 && *phase == v2)
 });
-harness!(content_op_K_k, {
-    let (a0, v0) = num(); let (a1, v1) = num(); let (a2, v2) = num(); let (a3, v3) = num();
-    let stroke: bool = kani::any();
-    let r = run(b, if stroke { "K" } else { "k" }, vec![a0, a1, a2, a3]);
-    r && b.ops.len() == 1 && match b.ops[0] {
-        Op::StrokeColor { color: Color::Cmyk(c) } => stroke && c.cyan == v0 && c.magenta == v1 && c.yellow == v2 && c.key == v3,
-        Op::FillColor { color: Color::Cmyk(c) } => !stroke && c.cyan == v0 && c.magenta == v1 && c.yellow == v2 && c.key == v3,
-        _ => false }
-});
-harness!(content_op_SC_sc, {
-    let (a0, v0) = num(); let (a1, v1) = num();
-    let which: u8 = kani::any();
-    kani::assume(which < 4);
-    let op = match which { 0 => "SC", 1 => "SCN", 2 => "sc", _ => "scn" };
-    let r = run(b, op, vec![a0, a1, nm("P0")]);
-    let chk = |v: &Vec<Primitive>| v.len() == 3 && matches!(v[0].as_number(), Ok(x) if x == v0) && matches!(v[1].as_number(), Ok(x) if x == v1)
-        && matches!(&v[2], Primitive::Name(n) if n.as_str() == "P0");
-    r && b.ops.len() == 1 && match &b.ops[0] {
-        Op::StrokeColor { color: Color::Other(v) } => which < 2 && chk(v),
-        Op::FillColor { color: Color::Other(v) } => which >= 2 && chk(v),
-        _ => false }
-});
-harness!(content_op_d, {
-    let (a0, v0) = num(); let (a1, v1) = num(); let (a2, v2) = num();
-    let r = run(b, "d", vec![Primitive::Array(vec![a0, a1]), a2]);
-    r && b.ops.len() == 1 && matches!(&b.ops[0], Op::Dash { pattern, phase } if pattern.len() == 2 && pattern[0] == v0 && pattern[1] == v1 && *phase == v2)
-});
-harness!(content_op_j_J, {
+harness!(content_op_J, |b| {
     let n: i32 = kani::any();
-    let cap: bool = kani::any();
-    let r = run(b, if cap { "J" } else { "j" }, vec![Primitive::Integer(n)]);
-    if n < 0 || n > 2 { !r && b.ops.len() == 0 } else {
-        r && b.ops.len() == 1 && match b.ops[0] {
-            Op::LineCap { cap: c } => cap && c as i32 == n,
-            Op::LineJoin { join: j } => !cap && j as i32 == n,
-            _ => false }
-    }
+    let r = run(b, "J", vec![Primitive::Integer(n)]);
+    if n < 0 || n > 2 { !r && b.ops.len() == 0 } else { r && b.ops.len() == 1 && matches!(b.ops[0], Op::LineCap { cap } if cap as i32 == n) }
 });
-harness!(content_op_Tr, {
+harness!(content_op_j, |b| {
+    let n: i32 = kani::any();
+    let r = run(b, "j", vec![Primitive::Integer(n)]);
+    if n < 0 || n > 2 { !r && b.ops.len() == 0 } else { r && b.ops.len() == 1 && matches!(b.ops[0], Op::LineJoin { join } if join as i32 == n) }
+});
+harness!(content_op_Tr, |b| {
     let n: i32 = kani::any();
     let r = run(b, "Tr", vec![Primitive::Integer(n)]);
     if n < 0 || n > 5 { !r && b.ops.len() == 0 } else {
         r && b.ops.len() == 1 && matches!(b.ops[0], Op::TextRenderMode { mode } if mode as i32 == n)
     }
 });
+macro_rules! ri_op {
+    ($name:ident, $s:expr) => {
+        harness!($name, |b| {
+            let r = run(b, "ri", vec![nm($s)]);
+            r && b.ops.len() == 1 && matches!(b.ops[0], Op::RenderingIntent { intent } if intent.to_str() == $s)
+        });
+    };
+}
+ri_op!(content_op_ri_abs, "AbsoluteColorimetric");
+ri_op!(content_op_ri_rel, "RelativeColorimetric");
+ri_op!(content_op_ri_sat, "Saturation");
+ri_op!(content_op_ri_per, "Perceptual");
 // text positioning / showing
-harness!(content_op_Td, {
+harness!(content_op_Td, |b| {
     let (a0, v0) = num(); let (a1, v1) = num();
     let r = run(b, "Td", vec![a0, a1]);
     r && b.ops.len() == 1 && matches!(b.ops[0], Op::MoveTextPosition { translation: t } if t.x == v0 && t.y == v1)
 });
-harness!(content_op_TD, {
+harness!(content_op_TD, |b| {
     let (a0, v0) = num(); let (a1, v1) = num();
     let r = run(b, "TD", vec![a0, a1]);
     r && b.ops.len() == 2 && matches!(b.ops[0], Op::Leading { leading } if leading == -v1)
       && matches!(b.ops[1], Op::MoveTextPosition { translation: t } if t.x == v0 && t.y == v1)
 });
-harness!(content_op_Tf, {
+harness!(content_op_Tf, |b| {
     let (a0, v0) = num();
     let r = run(b, "Tf", vec![nm("F1"), a0]);
     r && b.ops.len() == 1 && matches!(&b.ops[0], Op::TextFont { name, size } if is_name(name, "F1") && *size == v0)
 });
-harness!(content_op_Tj, {
+harness!(content_op_Tj, |b| {
     let r = run(b, "Tj", vec![st(b"ab")]);
     r && b.ops.len() == 1 && matches!(&b.ops[0], Op::TextDraw { text } if is_str(text, b"ab"))
 });
-harness!(content_op_quote, {
+harness!(content_op_quote, |b| {
     let r = run(b, "'", vec![st(b"ab")]);
     r && b.ops.len() == 2 && matches!(b.ops[0], Op::TextNewline) && matches!(&b.ops[1], Op::TextDraw { text } if is_str(text, b"ab"))
 });
-harness!(content_op_dquote, {
+harness!(content_op_dquote, |b| {
     let (a0, v0) = num(); let (a1, v1) = num();
     let r = run(b, "\"", vec![a0, a1, st(b"ab")]);
     r && b.ops.len() == 4 && matches!(b.ops[0], Op::WordSpacing { word_space } if word_space == v0)
       && matches!(b.ops[1], Op::CharSpacing { char_space } if char_space == v1)
       && matches!(b.ops[2], Op::TextNewline) && matches!(&b.ops[3], Op::TextDraw { text } if is_str(text, b"ab"))
 });
-harness!(content_op_TJ, {
+harness!(content_op_TJ, |b| {
     let (a0, v0) = num();
     let r = run(b, "TJ", vec![Primitive::Array(vec![st(b"a"), a0, st(b"b")])]);
     r && b.ops.len() == 1 && matches!(&b.ops[0], Op::TextDrawAdjusted { array } if array.len() == 3
@@ -279,12 +301,91 @@ harness!(content_op_TJ, {
         && matches!(&array[2], TextDrawAdjusted::Text(t) if is_str(t, b"b")))
 });
 /// a missing operand is an error, never a panic, and produces no operation
-harness!(content_op_missing_operand, {
-    let which: u8 = kani::any();
-    kani::assume(which < 6);
-    let (a0, _) = num();
-    let (op, args) = match which {
-        0 => ("m", vec![a0]), 1 => ("c", vec![a0]), 2 => ("Tf", vec![nm("F")]), 3 => ("re", vec![a0]), 4 => ("w", vec![]), _ => ("Tj", vec![]) };
-    let r = run(b, op, args);
-    !r && b.ops.len() == 0
-});
+macro_rules! missing {
+    ($name:ident, $op:expr, $args:expr) => {
+        harness!($name, |b| { let r = run(b, $op, $args); !r && b.ops.len() == 0 });
+    };
+}
+missing!(content_op_missing_m, "m", vec![num().0]);
+missing!(content_op_missing_c, "c", vec![num().0, num().0, num().0]);
+missing!(content_op_missing_Tf, "Tf", vec![nm("F")]);
+missing!(content_op_missing_w, "w", vec![]);
+missing!(content_op_missing_Tj, "Tj", vec![]);
+
+// ---- proof harnesses: groups of operators (one goto binary per group keeps compile time down) ----
+#[kani::proof]
+#[kani::stub(std::fmt::format, nofmt)]
+#[kani::stub(crate::content::inline_image, ii_stub)]
+fn content_grp_paint() { content_op_b(); content_op_B(); content_op_bstar(); content_op_Bstar(); content_op_f(); content_op_F(); content_op_fstar(); content_op_h(); content_op_n(); content_op_s(); content_op_S(); content_op_W(); content_op_Wstar(); }
+#[kani::proof]
+#[kani::stub(std::fmt::format, nofmt)]
+#[kani::stub(crate::content::inline_image, ii_stub)]
+fn content_grp_state() { content_op_BT(); content_op_ET(); content_op_EMC(); content_op_q(); content_op_Q(); content_op_Tstar(); }
+#[kani::proof]
+#[kani::stub(std::fmt::format, nofmt)]
+#[kani::stub(crate::content::inline_image, ii_stub)]
+fn content_grp_num_a() { content_op_G(); content_op_g(); content_op_i(); content_op_M(); content_op_w(); }
+#[kani::proof]
+#[kani::stub(std::fmt::format, nofmt)]
+#[kani::stub(crate::content::inline_image, ii_stub)]
+fn content_grp_num_b() { content_op_Tc(); content_op_TL(); content_op_Ts(); content_op_Tw(); content_op_Tz(); }
+#[kani::proof]
+#[kani::stub(std::fmt::format, nofmt)]
+#[kani::stub(crate::content::inline_image, ii_stub)]
+fn content_grp_names() { content_op_CS(); content_op_cs(); content_op_Do(); content_op_gs(); content_op_sh(); content_op_BMC(); content_op_MP(); }
+#[kani::proof]
+#[kani::stub(std::fmt::format, nofmt)]
+#[kani::stub(crate::content::inline_image, ii_stub)]
+fn content_grp_marked() { content_op_BDC(); content_op_DP(); }
+#[kani::proof]
+#[kani::stub(std::fmt::format, nofmt)]
+#[kani::stub(crate::content::inline_image, ii_stub)]
+fn content_grp_path_a() { content_op_m(); content_op_l(); }
+#[kani::proof]
+#[kani::stub(std::fmt::format, nofmt)]
+#[kani::stub(crate::content::inline_image, ii_stub)]
+fn content_grp_path_b() { content_op_v(); content_op_re(); }
+#[kani::proof]
+#[kani::stub(std::fmt::format, nofmt)]
+#[kani::stub(crate::content::inline_image, ii_stub)]
+fn content_grp_path_c() { content_op_c(); content_op_y(); }
+#[kani::proof]
+#[kani::stub(std::fmt::format, nofmt)]
+#[kani::stub(crate::content::inline_image, ii_stub)]
+fn content_grp_matrix() { content_op_cm(); content_op_Tm(); }
+#[kani::proof]
+#[kani::stub(std::fmt::format, nofmt)]
+#[kani::stub(crate::content::inline_image, ii_stub)]
+fn content_grp_rgb() { content_op_RG(); content_op_rg(); }
+#[kani::proof]
+#[kani::stub(std::fmt::format, nofmt)]
+#[kani::stub(crate::content::inline_image, ii_stub)]
+fn content_grp_cmyk() { content_op_K(); content_op_k(); }
+#[kani::proof]
+#[kani::stub(std::fmt::format, nofmt)]
+#[kani::stub(crate::content::inline_image, ii_stub)]
+fn content_grp_other_color() { content_op_SC(); content_op_SCN(); content_op_sc(); content_op_scn(); }
+#[kani::proof]
+#[kani::stub(std::fmt::format, nofmt)]
+#[kani::stub(crate::content::inline_image, ii_stub)]
+fn content_grp_dash() { content_op_d(); }
+#[kani::proof]
+#[kani::stub(std::fmt::format, nofmt)]
+#[kani::stub(crate::content::inline_image, ii_stub)]
+fn content_grp_enum() { content_op_J(); content_op_j(); content_op_Tr(); }
+#[kani::proof]
+#[kani::stub(std::fmt::format, nofmt)]
+#[kani::stub(crate::content::inline_image, ii_stub)]
+fn content_grp_ri() { content_op_ri_abs(); content_op_ri_rel(); content_op_ri_sat(); content_op_ri_per(); }
+#[kani::proof]
+#[kani::stub(std::fmt::format, nofmt)]
+#[kani::stub(crate::content::inline_image, ii_stub)]
+fn content_grp_text_pos() { content_op_Td(); content_op_TD(); content_op_Tf(); }
+#[kani::proof]
+#[kani::stub(std::fmt::format, nofmt)]
+#[kani::stub(crate::content::inline_image, ii_stub)]
+fn content_grp_text_show() { content_op_Tj(); content_op_quote(); content_op_dquote(); content_op_TJ(); }
+#[kani::proof]
+#[kani::stub(std::fmt::format, nofmt)]
+#[kani::stub(crate::content::inline_image, ii_stub)]
+fn content_grp_missing() { content_op_missing_m(); content_op_missing_c(); content_op_missing_Tf(); content_op_missing_w(); content_op_missing_Tj(); }
